@@ -26,6 +26,19 @@ func main() {
 		out.Begin(sc.Describe())
 		gc.Emit(out, gc.Run(sc))
 	}
+	// a Subscribe whose context is already cancelled (the cancel won the race): whatever it answers, the Pub/Sub must go on
+	// serving the other subscriptions, later Subscribe calls and Close
+	for i := 0; i < 6; i++ {
+		sc := gc.Scenario{Buf: i % 2, Persistent: i%3 == 1, Blocking: i < 4, Seed: rng.Next(), LateOps: true,
+			Subs: []gc.SubSpec{
+				{Topic: 0, Phase: 0, CancelAtRecv: -1, NestedTopic: -1},
+				{Topic: 0, Phase: i % 2, CancelAtRecv: -1, NestedTopic: -1, PreCancel: true},
+				{Topic: 0, Phase: 2, CancelAtRecv: -1, NestedTopic: -1}},
+			Pubs: []gc.PubSpec{{Topic: 0, Calls: 3, Batch: 1}}}
+		out.Begin(sc.Describe())
+		gc.Emit(out, gc.Run(sc))
+		out.Count("subscribe_with_cancelled_context")
+	}
 	f := gc.Focus{Blocking: 500, Persistent: 300, Cancel: 250, Hold: 80, Nested: 150, Late: 300, CloseRace: 100, MaxSubs: 3, MaxPubs: 3, MaxMsgs: 4}
 	for i := 0; i < n; i++ {
 		sc := gc.Random(rng, f)
